@@ -1,7 +1,7 @@
 """C03 -- USB2 transmitted data packets are correctly framed with a valid CRC16."""
 from ..ir import E
 from .. import q
-from ..fsm import state_outcomes, unreachable_states
+from ..fsm import state_outcomes, unreachable_states, guard_atoms
 
 TITLE = 'USB2 data packet transmission'
 FLOOR = 20
@@ -26,8 +26,12 @@ def run(ctx):
     ctx.need(len(st) == 1 and st[0].state, 'crc.start site')
     P = q.state_of(st[0])
     ctx.ob('C03.crc-start', 'USBDataPacketGenerator.crc.start', not st[0].guard, st[0].loc, 'the CRC restarts while the PID is sent, unconditionally')
-    oz = state_outcomes(fsm, P, {TR: True, 'is_zlp': True})
-    on = state_outcomes(fsm, P, {TR: True, 'is_zlp': False})
+    # the zero-length flag by role: the one condition besides tx.ready that the edges out of the PID state test
+    zf = sorted({a for e in fsm.out_edges(P) for a, _ in guard_atoms(e.guard)} - {TR})
+    ctx.need(len(zf) == 1 and zf[0] in ir.signals, 'the zero-length flag tested when leaving the PID state (found %s)' % zf)
+    ZLP = zf[0]
+    oz = state_outcomes(fsm, P, {TR: True, ZLP: True})
+    on = state_outcomes(fsm, P, {TR: True, ZLP: False})
     ctx.need(len(oz) == 1 and len(on) == 1, 'successors of the PID state')
     C1, PAY = list(oz)[0], list(on)[0]
     o = state_outcomes(fsm, C1, {TR: True})
@@ -56,7 +60,7 @@ def run(ctx):
            fsm.state_loc[idle], 'a packet starts on first&valid, or on last&valid without first (ZLP), and on nothing else: %s %s %s %s' % (
                sorted(map(str, o1)), sorted(map(str, o2)), sorted(map(str, o3)), sorted(map(str, o4))))
     from ..fsm import holds
-    zl = {a.rhs.val: a for a in ir.drivers('is_zlp', exact=True) if a.rhs.op == 'const' and q.state_of(a) == idle}
+    zl = {a.rhs.val: a for a in ir.drivers(ZLP, exact=True) if a.rhs.op == 'const' and q.state_of(a) == idle}
     ok = set(zl) == {0, 1}
     if ok:
         for f_ in (False, True):
@@ -73,7 +77,18 @@ def run(ctx):
                         ok = ok and val == 1
     ctx.ob('C03.start', 'USBDataPacketGenerator.is_zlp', ok, None, 'is_zlp is 1 exactly for last-without-first requests and 0 for first&valid: %s' % {k: sorted(q.atoms(v)) for k, v in zl.items()})
     # (b) PID table
-    lp = ir.drivers('current_data_pid', exact=True)
+    def drv(sig, state):
+        return [a for a in ir.drivers(sig, exact=True) if q.state_of(a) == state]
+
+    def reg_shown(state, what):
+        """The local register whose value tx.data carries in `state` (found by role, the name is the code's own)."""
+        d = drv('self.tx.data', state)
+        ctx.need(d, 'tx.data driver in the %s state' % what)
+        if len(d) == 1 and isinstance(d[0].rhs, E) and d[0].rhs.op == 'sig' and not d[0].rhs.canon().startswith('self.'):
+            return d[0].rhs.canon()
+        return None                                 # reported by C03.byte-source / pid-latch / crc-second-byte below
+    PIDR, CRC2 = reg_shown(P, 'PID'), reg_shown(C2, 'second CRC byte')
+    lp = ir.drivers(PIDR, exact=True) if PIDR else []
     ok = len(lp) == 1 and q.state_of(lp[0]) == idle and not lp[0].guard and lp[0].rhs.op == 'arr' and lp[0].rhs.args[0].canon() == 'self.data_pid'
     ctx.ob('C03.pid-latch', 'USBDataPacketGenerator.current_data_pid', ok, lp[0].loc if lp else None, 'the DATA PID is chosen by data_pid and latched only in idle: %s' % [q.fmt(a) for a in lp])
     if ok:
@@ -83,17 +98,15 @@ def run(ctx):
     w = getattr(ir.signals.get('self.data_pid'), 'w', None)
     ctx.ob('C03.pid-table', 'USBDataPacketGenerator.data_pid-width', w == 2, None, 'data_pid selects one of four PIDs (width %s)' % w)
 
-    def drv(sig, state):
-        return [a for a in ir.drivers(sig, exact=True) if q.state_of(a) == state]
-    exp = {P: ('current_data_pid', '1'), C1: ('self.crc.crc[0:8]', '1'), C2: ('remaining_crc', '1'), PAY: ('self.stream.payload', 'self.stream.valid')}
+    exp = {P: (PIDR, '1'), C1: ('self.crc.crc[0:8]', '1'), C2: (CRC2, '1'), PAY: ('self.stream.payload', 'self.stream.valid')}
     for s, (data, valid) in exp.items():
         d, v = drv('self.tx.data', s), drv('self.tx.valid', s)
-        ok = len(d) == 1 and len(v) == 1 and q.base(d[0].rhs.canon()) == data and v[0].rhs.canon() == valid and not d[0].guard and not v[0].guard
+        ok = len(d) == 1 and len(v) == 1 and data is not None and d[0].rhs.canon() == data and v[0].rhs.canon() == valid and not d[0].guard and not v[0].guard
         ctx.ob('C03.byte-source', 'USBDataPacketGenerator.%s.tx' % role[s], ok, d[0].loc if d else fsm.state_loc.get(s),
-               'in the %s state tx carries %s (valid=%s): %s' % (role[s], data, valid, [q.fmt(a) for a in d + v]))
+               'in the %s state tx carries %s (valid=%s): %s' % (role[s], data or 'a local register', valid, [q.fmt(a) for a in d + v]))
     for a in q.raises(ir, 'self.tx.valid'):
         ctx.ob('C03.byte-source', 'USBDataPacketGenerator.tx.valid@%s' % role.get(q.state_of(a), '?'), q.state_of(a) in exp, a.loc, 'tx.valid only in sending states')
-    rc = ir.drivers('remaining_crc', exact=True)
+    rc = ir.drivers(CRC2, exact=True) if CRC2 else []
     ok = len(rc) == 1 and q.state_of(rc[0]) == C1 and rc[0].rhs.canon() == 'self.crc.crc[8:16]' and not rc[0].guard
     ctx.ob('C03.crc-second-byte', 'USBDataPacketGenerator.remaining_crc', ok, rc[0].loc if rc else None,
            'the high CRC byte is captured from crc[8:16] while the low byte is being sent: %s' % [q.fmt(a) for a in rc])
